@@ -1854,6 +1854,55 @@ def _mk_result_model(kind):
     return model
 
 
+def _model_fetch_update(ex, body, st, bb, t, c, args, frame, cont, target, nt, span):
+    """std's `cell.fetch_update(set_order, fetch_order, f)` as the loop it is: load; `f(cur)`: None -> Err(cur); Some(new) ->
+    compare_exchange_weak(cur, new): Ok -> Ok(cur), Err(seen) -> again with `seen`.  The load and each exchange are reported
+    as the atomic events a hand-written loop would produce (same cell, same operands, same orderings)."""
+    if len(args) < 4:
+        return
+    cell, so, fo, clos = args[0], args[1], args[2], args[3]
+    cb = ex._closure_body(clos)
+    if cb is None:
+        return
+    pre = target.rsplit("::", 1)[0]
+    ld = pre + "::load"
+    cx = pre + "::compare_exchange_weak"
+    cur0 = ("call", ld, (cell, fo), fresh())
+    st.events.append(Event("call", bb, frame, body, target=ld, ntarget=norm(ld), args=[cell, fo], result=cur0,
+                           callee=_FakeCallee(ld), span=span, fterm=None, pure=False))
+    st.memver += 1
+    rounds = max(2, ex.unroll + 1)
+
+    def step(s, cur, k):
+        for (s2, ret, ex_) in _run_closure(ex, body, s, bb, frame, cb, clos, [cur], target, nt, span, "update"):
+            if ex_ is not None:
+                yield (s2, ex_, None)
+                continue
+            for (s3, is_some, payload) in _opt_cases(s2, ret, bb, frame, body, span):
+                if not is_some:
+                    for r in cont(s3, ("agg", "std::result::Result", "Err", (cur,), 1, ("0",))):
+                        yield r
+                    continue
+                res = ("call", cx, (cell, cur, payload, so, fo), fresh())
+                s3.events.append(Event("call", bb, frame, body, target=cx, ntarget=norm(cx), args=[cell, cur, payload, so, fo],
+                                       result=res, callee=_FakeCallee(cx), span=span, fterm=None, pure=False))
+                s3.memver += 1
+                s_ok = s3.fork()
+                if _res_cond(s_ok, res, True, bb, frame, body, span):
+                    for r in cont(s_ok, ("agg", "std::result::Result", "Ok", (cur,), 0, ("0",))):
+                        yield r
+                s_er = s3.fork()
+                if _res_cond(s_er, res, False, bb, frame, body, span):
+                    if k + 1 < rounds:
+                        for r in step(s_er, _errp(res), k + 1):
+                            yield r
+                    else:
+                        ex._count()
+                        yield (s_er, ("retry", bb), None)
+    for r in step(st, cur0, 0):
+        yield r
+
+
 def _model_bool_then(ex, body, st, bb, t, c, args, frame, cont, target, nt, span):
     """bool::then(b, f): Some(f()) iff b"""
     b, clos = args[0], args[1] if len(args) > 1 else None
@@ -2286,6 +2335,7 @@ HIGHER_ORDER = {
     "std::mem::replace": _model_local_take,
     "std::mem::take": _model_local_take,
     "std::iter::Iterator::for_each": _model_iter_for_each,
+    "std::sync::atomic::Atomic::fetch_update": _model_fetch_update,
     "chain::next": _model_chain_next,
     "std::iter::Iterator::any": _mk_iter_any("any"),
     "std::iter::Iterator::all": _mk_iter_any("all"),
